@@ -109,37 +109,41 @@ end
 /-- how many characters a jump from `rest` to its suffix `r2` consumed -/
 def consumed (rest r2 : List Char) : Nat := rest.length - r2.length
 
+/-- move `k` characters from the unread text to the current piece (kept reversed) -/
+def adv (k : Nat) (rest cur : List Char) : List Char × List Char :=
+  (rest.drop k, (rest.take k).reverse ++ cur)
+
 /-- the `for c in i` loop of `_split`; `cur` = characters since the last split, reversed;
-    yields the pieces in order -/
+    yields the pieces in order.  (`|` is tested first: it is not an extended-group type
+    character, so the `parse_extend` attempt that the code makes before it never applies.) -/
 def mainLoop (cfg : Cfg) : Nat → List Char → List Char → List (List Char)
   | 0, rest, cur => [cur.reverse ++ rest]
   | fuel + 1, rest, cur =>
     match rest with
     | [] => [cur.reverse]                                  -- `if start < len(pattern)`: always
     | c :: r =>
-      let ext : Option (Bool × List Char) :=
-        if cfg.extend && extTypes.contains c then some (parseExtend cfg (r.length + 1) r) else none
-      match ext with
-      | some (true, r2) =>
-        let k := consumed r r2
-        mainLoop cfg fuel (r.drop k) ((r.take k).reverse ++ c :: cur)
-      | other =>
-        let r2 := match other with
-          | some (_, r2) => r2
-          | none => r
-        let k := consumed r r2
-        let rest2 := r.drop k
-        let cur2 := (r.take k).reverse ++ c :: cur
-        if c = '|' then cur.reverse :: mainLoop cfg fuel rest2 []
-        else if c = '\\' then
-          match references cfg false rest2 with
-          | some r3 => let j := consumed rest2 r3; mainLoop cfg fuel (rest2.drop j) ((rest2.take j).reverse ++ cur2)
-          | none => mainLoop cfg fuel rest2 cur2
-        else if c = '[' then
-          match sequence cfg rest2 with
-          | some r3 => let j := consumed rest2 r3; mainLoop cfg fuel (rest2.drop j) ((rest2.take j).reverse ++ cur2)
-          | none => mainLoop cfg fuel rest2 cur2
-        else mainLoop cfg fuel rest2 cur2
+      if c = '|' then cur.reverse :: mainLoop cfg fuel r []
+      else
+        let ext : Option (Bool × List Char) :=
+          if cfg.extend && extTypes.contains c then some (parseExtend cfg (r.length + 1) r) else none
+        match ext with
+        | some (true, r2) =>
+          let s := adv (consumed r r2) r (c :: cur)
+          mainLoop cfg fuel s.1 s.2
+        | other =>
+          let r2 := match other with
+            | some (_, r2) => r2
+            | none => r
+          let s := adv (consumed r r2) r (c :: cur)
+          if c = '\\' then
+            match references cfg false s.1 with
+            | some r3 => let t := adv (consumed s.1 r3) s.1 s.2; mainLoop cfg fuel t.1 t.2
+            | none => mainLoop cfg fuel s.1 s.2
+          else if c = '[' then
+            match sequence cfg s.1 with
+            | some r3 => let t := adv (consumed s.1 r3) s.1 s.2; mainLoop cfg fuel t.1 t.2
+            | none => mainLoop cfg fuel s.1 s.2
+          else mainLoop cfg fuel s.1 s.2
 
 /-- `WcSplit(pattern, flags).split()` -/
 def wcSplit (cfg : Cfg) (p : List Char) : List (List Char) := mainLoop cfg (p.length + 1) p []
